@@ -404,3 +404,260 @@ func verifC15Long(t *testing.T) {
 }
 
 func init() { verifModes["c15long"] = verifC15Long }
+
+// ---------------------------------------------------------------------------------------------------------------------
+// C15 (relay half, time-aged sessions): behaviour that depends on UPTIME, not on traffic volume (periodic timers: statistics,
+// keep-alives, watchdogs).  One ProcessMidiEvents instance stays alive for a wall-clock duration with sparse traffic - one
+// counter-tagged message per direction every PeriodMin..PeriodMax ms and a few quiet periods - and EVERYTHING that comes out of
+// the port's send channel and out of midiEventsIn during that time (and a grace period after the last message) is recorded
+// exactly, whatever its content (an empty or malformed message included), with its arrival time.  Nothing is judged here: the
+// lists go to the Coq monitors Run/TransportRun.v:relay_ok / in_ok (an extra message of any content is rejected there).
+
+type c15AgedScenario struct {
+	Name        string   `json:"name"`
+	Seed        int64    `json:"seed"`
+	DurationMs  int      `json:"duration_ms"`
+	PeriodMinMs int      `json:"period_min_ms"`
+	PeriodMaxMs int      `json:"period_max_ms"`
+	Quiets      [][2]int `json:"quiets"` // [start ms, length ms]: nothing is sent in these intervals
+	GraceMs     int      `json:"grace_ms"`
+	StuckMs     int      `json:"stuck_ms"` // a send not accepted that long after the end of the session = stalled
+	Emitters    int      `json:"emitters"`
+	OutCap      int      `json:"out_cap"`
+	InCap       int      `json:"in_cap"`
+	SendCap     int      `json:"send_cap"`
+	RecvCap     int      `json:"recv_cap"`
+}
+
+type c15AgedIn struct {
+	GoMaxProcs int               `json:"gomaxprocs"`
+	Scenarios  []c15AgedScenario `json:"scenarios"` // run concurrently
+}
+
+type c15AgedScenarioOut struct {
+	Name      string      `json:"name"`
+	Sent      [][][]int   `json:"sent"`
+	SentMs    [][]float64 `json:"sent_ms"`
+	Port      [][]int     `json:"port"`
+	PortMs    []float64   `json:"port_ms"` // uptime at which the port received each message
+	Arrived   [][]int     `json:"arrived"`
+	ArrivedMs []float64   `json:"arrived_ms"`
+	Got       [][]int     `json:"got"`
+	GotMs     []float64   `json:"got_ms"`
+	Timeout   bool        `json:"timeout"`
+	UptimeMs  float64     `json:"uptime_ms"`
+}
+
+type c15AgedOut struct {
+	GoMaxProcs int                  `json:"gomaxprocs"`
+	Scenarios  []c15AgedScenarioOut `json:"scenarios"`
+}
+
+func c15RunAged(sc c15AgedScenario) (res c15AgedScenarioOut) {
+	res.Name = sc.Name
+	em := sc.Emitters
+	if em < 1 {
+		em = 1
+	}
+	ctx, cancel := context.WithCancel(context.Background())
+	defer cancel()
+	out := make(chan Event, sc.OutCap)
+	in := make(chan Event, sc.InCap)
+	fin := &c15FakeIn{ch: make(chan []byte, sc.RecvCap)}
+	fout := &c15FakeOut{ch: make(chan []byte, sc.SendCap)}
+	score := Score{}
+	t0 := time.Now()
+	ProcessMidiEvents(ctx, driver.Port{Input: fin, Output: fout}, out, in, &score)
+	up := func() float64 { return float64(time.Since(t0).Microseconds()) / 1000 }
+	end := t0.Add(time.Duration(sc.DurationMs) * time.Millisecond)
+
+	var mu sync.Mutex
+	sent := make([][][]int, em)
+	sentMs := make([][]float64, em)
+	var port, arrived, got [][]int
+	var portMs, arrivedMs, gotMs []float64
+	stuck := make(chan struct{}) // closed when a send has been pending for too long after the end
+	stop := make(chan struct{})  // closed when the observers may stop
+
+	// the sparse source: sleeps a random period, skips the quiet intervals, sends the next counter message
+	source := func(seed int64, emit func(j int64) bool) {
+		r := rand.New(rand.NewSource(seed))
+		for j := int64(0); ; {
+			d := sc.PeriodMinMs
+			if sc.PeriodMaxMs > sc.PeriodMinMs {
+				d += r.Intn(sc.PeriodMaxMs - sc.PeriodMinMs + 1)
+			}
+			time.Sleep(time.Duration(d) * time.Millisecond)
+			now := int(time.Since(t0).Milliseconds())
+			for _, q := range sc.Quiets {
+				if now >= q[0] && now < q[0]+q[1] {
+					time.Sleep(time.Duration(q[0]+q[1]-now) * time.Millisecond)
+				}
+			}
+			if !time.Now().Before(end) {
+				return
+			}
+			if !emit(j) {
+				return
+			}
+			j++
+		}
+	}
+	var prod sync.WaitGroup
+	for k := 0; k < em; k++ {
+		prod.Add(1)
+		go func(k int) {
+			defer prod.Done()
+			source(sc.Seed*100+int64(k), func(j int64) bool {
+				m := c15CMsg(k, j)
+				mu.Lock()
+				sent[k] = append(sent[k], c15Ints(m))
+				sentMs[k] = append(sentMs[k], up())
+				mu.Unlock()
+				select {
+				case out <- Event(m):
+					return true
+				case <-stuck:
+					return false
+				}
+			})
+		}(k)
+	}
+	prod.Add(1)
+	go func() {
+		defer prod.Done()
+		source(sc.Seed*100+60, func(j int64) bool {
+			m := c15CMsg(0, j)
+			mu.Lock()
+			arrived = append(arrived, c15Ints(m))
+			arrivedMs = append(arrivedMs, up())
+			mu.Unlock()
+			select {
+			case fin.ch <- m:
+				return true
+			case <-stuck:
+				return false
+			}
+		})
+	}()
+	// the observers: the port and the devices' side of midiEventsIn take whatever comes, at once
+	var obs sync.WaitGroup
+	obs.Add(2)
+	go func() {
+		defer obs.Done()
+		for {
+			select {
+			case b := <-fout.ch:
+				mu.Lock()
+				port = append(port, c15Ints(b))
+				portMs = append(portMs, up())
+				mu.Unlock()
+			case <-stop:
+				return
+			}
+		}
+	}()
+	go func() {
+		defer obs.Done()
+		for {
+			select {
+			case b := <-in:
+				mu.Lock()
+				got = append(got, c15Ints(b))
+				gotMs = append(gotMs, up())
+				mu.Unlock()
+			case <-stop:
+				return
+			}
+		}
+	}()
+
+	pdone := make(chan struct{})
+	go func() { prod.Wait(); close(pdone) }()
+	stuckAfter := time.Duration(sc.DurationMs+sc.StuckMs) * time.Millisecond
+	if sc.StuckMs <= 0 {
+		stuckAfter = time.Duration(sc.DurationMs)*time.Millisecond + 30*time.Second
+	}
+	select {
+	case <-pdone:
+	case <-time.After(time.Until(t0.Add(stuckAfter))):
+		res.Timeout = true
+		close(stuck)
+		<-pdone
+	}
+	grace := time.Duration(sc.GraceMs) * time.Millisecond
+	if grace <= 0 {
+		grace = 500 * time.Millisecond
+	}
+	time.Sleep(grace) // stragglers and late extras still count
+	close(stop)
+	obs.Wait()
+	for more := true; more; {
+		select {
+		case b := <-fout.ch:
+			port = append(port, c15Ints(b))
+			portMs = append(portMs, up())
+		case b := <-in:
+			got = append(got, c15Ints(b))
+			gotMs = append(gotMs, up())
+		default:
+			more = false
+		}
+	}
+	res.UptimeMs = up()
+	cancel()
+	res.Sent, res.SentMs, res.Port, res.PortMs = sent, sentMs, port, portMs
+	res.Arrived, res.ArrivedMs, res.Got, res.GotMs = arrived, arrivedMs, got, gotMs
+	for k := range res.Sent {
+		if res.Sent[k] == nil {
+			res.Sent[k] = [][]int{}
+		}
+		if res.SentMs[k] == nil {
+			res.SentMs[k] = []float64{}
+		}
+	}
+	if res.Port == nil {
+		res.Port = [][]int{}
+	}
+	if res.Arrived == nil {
+		res.Arrived = [][]int{}
+	}
+	if res.Got == nil {
+		res.Got = [][]int{}
+	}
+	if res.PortMs == nil {
+		res.PortMs = []float64{}
+	}
+	if res.ArrivedMs == nil {
+		res.ArrivedMs = []float64{}
+	}
+	if res.GotMs == nil {
+		res.GotMs = []float64{}
+	}
+	return res
+}
+
+func verifC15Aged(t *testing.T) {
+	var in c15AgedIn
+	mustReadJSON(t, &in)
+	if in.GoMaxProcs > 0 {
+		runtime.GOMAXPROCS(in.GoMaxProcs)
+	}
+	go func() {
+		for range logger.Messages {
+		}
+	}()
+	out := c15AgedOut{GoMaxProcs: runtime.GOMAXPROCS(0), Scenarios: make([]c15AgedScenarioOut, len(in.Scenarios))}
+	var wg sync.WaitGroup
+	for i := range in.Scenarios {
+		wg.Add(1)
+		go func(i int) {
+			defer wg.Done()
+			out.Scenarios[i] = c15RunAged(in.Scenarios[i])
+		}(i)
+	}
+	wg.Wait()
+	mustWriteJSON(t, out)
+}
+
+func init() { verifModes["c15aged"] = verifC15Aged }
